@@ -495,6 +495,51 @@ impl Check for C02 {
                 }
             });
         }
+        // several contours in one path, judged by the exact model (a reference fill through the same
+        // antialias mode shares the library's idea of the winding rule and of the winding carried in
+        // from beyond the left border): same-sense nested rings (winding 2 in the hole), a contour
+        // wholly left / right / above the surface next to one on it, rings across each border
+        {
+            let r = |x: f32, y: f32, w: f32, h: f32, cw: bool| -> Vec<POp> {
+                if cw { vec![POp::M(x, y), POp::L(x + w, y), POp::L(x + w, y + h), POp::L(x, y + h), POp::Z] } else { vec![POp::M(x, y), POp::L(x, y + h), POp::L(x + w, y + h), POp::L(x + w, y), POp::Z] }
+            };
+            let mut shapes: Vec<Vec<POp>> = Vec::new();
+            for cw2 in [true, false] {
+                // nested rings, same and opposite sense
+                shapes.push([r(2.5, 2.25, 19., 18.5, true), r(7.25, 6.5, 9.5, 9.75, cw2)].concat());
+                // a contour wholly beyond one border and a contour on the surface, on the same rows / columns
+                shapes.push([r(-30., 5., 20., 12., true), r(10., 5.5, 8., 10., cw2)].concat());
+                shapes.push([r(-30., 5., 20., 12., true), r(-50.5, 3., 12., 16., cw2), r(10., 5.5, 8., 10., true)].concat());
+                shapes.push([r(40., 5., 20., 12., true), r(10., 5.5, 8., 10., cw2)].concat());
+                shapes.push([r(5., -30., 12., 20., true), r(5.5, 10., 10., 8., cw2)].concat());
+                // rings across the left, the top and the right border
+                shapes.push([r(-9., 4., 18., 16., true), r(-4.75, 8.25, 9.5, 7.5, cw2)].concat());
+                shapes.push([r(4., -9., 16., 18., true), r(8.25, -4.75, 7.5, 9.5, cw2)].concat());
+                shapes.push([r(15., 4., 18., 16., true), r(19.25, 8.25, 9.5, 7.5, cw2)].concat());
+            }
+            let fmodes = [BlendMode::SrcOver, BlendMode::Clear, BlendMode::Src, BlendMode::DstIn];
+            run.bound("several contours (exact model)", format!("{} paths of two or three rectangles (nested same / opposite sense, one wholly beyond a border, rings across a border) x {} modes x 2 aa x 2 rules on 24x24, zero coverage decided by the exact 4x4 model", shapes.len(), fmodes.len()));
+            run.par(shapes.len(), |s, l| {
+                for mode in fmodes {
+                    for aa in [true, false] {
+                        for eo in [false, true] {
+                            let scene = Scene { w: 24, h: 24, dst: Dst::Distinct, ops: vec![Op::Fill(PathSpec { evenodd: eo, ops: shapes[s].clone() }, SrcSpec::Solid(0xff204080), Opts { mode, alpha: 1.0, aa })] };
+                            l.states += 2;
+                            l.transitions += 1;
+                            l.traces += 1;
+                            l.evals += 1;
+                            match eval_exact(&scene) {
+                                Ok(h) => {
+                                    l.outcome(h);
+                                    l.nontrivial += 1;
+                                }
+                                Err(v) => run.report(50_500 + s, v),
+                            }
+                        }
+                    }
+                }
+            });
+        }
         // long strips (spans and masks beyond 256 / 1024 / 2048 / 8192 pixels)
         let hmodes = [BlendMode::SrcOver, BlendMode::Src, BlendMode::Clear, BlendMode::DstIn];
         run.bound("wide-tall", format!("the long-strip scenes shared with C03 (300x2, 2x300, 8200x2, 2x8200; far-end draws, full-length sliver fill, full-length mask) x {} modes", hmodes.len()));
